@@ -151,3 +151,19 @@ M('c06-asgi-access-route-peer-membership', 'C06', 'R6', 'falcon/asgi/request.py'
   "                if self._cached_access_route[-1] != client:", "                if client not in self._cached_access_route:")
 M('c06-asgi-strip-all-trailing-slashes', 'C06', 'R3', 'falcon/asgi/request.py',
   "            self.path = path[:-1]", "            self.path = path.rstrip('/')")
+
+M('c06-asgi-inline-render-skips-content-type-store', 'C06', 'R7', 'falcon/asgi/app.py',
+  """                            if not resp.content_type:
+                                resp.content_type = opt.default_media_type
+
+""", """                            if not resp.content_type:
+                                pass
+
+""", also=('C05', 'C12'))
+M2('c06-asgi-params-class-default', 'C06', 'R8', [
+    {'file': 'falcon/asgi/request.py', 'old': """        else:
+            self._params = {}
+""", 'new': """        else:
+            pass
+"""},
+    {'file': 'falcon/asgi/request.py', 'old': "    _media: UnsetOr[Any] = _UNSET\n", 'new': "    _media: UnsetOr[Any] = _UNSET\n    _params: Dict[str, Any] = {}\n"}], also=('C19',))
